@@ -167,12 +167,24 @@ class _Forced:
         return getattr(s, name)
 
 
-def _step_call(gb, step, ds, lay, class_keys=None):
-    """Execute one step on `gb`; returns the value (or raises)."""
+def _step_call(gb, step, ds, lay, class_keys=None, client=None):
+    """Execute one step on `gb`; returns the value (or raises).  `client` caches the
+    client's own objects: a real caller passes the *same* mask / value objects to
+    several calls, and anything memoised on their identity must survive that."""
     op = step["op"]
     dso = ops.sanitize(ds, op)
-    values = gen.build_values(dso, lay, op["cols"])
-    mask = gen.build_mask(dso, ops.op_mask(op))
+    client = {} if client is None else client
+    vkey = ("v", tuple(op["cols"]), dso is ds)
+    if vkey not in client:
+        client[vkey] = gen.build_values(dso, lay, op["cols"])
+    values = client[vkey]
+    if "mask_ref" in op:
+        mkey = ("m", op["mask_ref"])
+        if mkey not in client:
+            client[mkey] = gen.build_mask(dso, ops.op_mask(op))
+        mask = client[mkey]
+    else:
+        mask = gen.build_mask(dso, ops.op_mask(op))
     if step["kind"] == "failing_call":
         fk = step["fail"]
         n = ds["n"]
@@ -203,12 +215,54 @@ def gen_scenario(scen: Choices, cls, cfg):
         st["threshold"] = [1, 2, 4, 8][scen.draw(4)]
     max_steps = 8 if tier == "quick" else 14
     nsteps = 2 + scen.small(max_steps - 2)
+    mask_pool = [gen.gen_mask(scen, ds, ("bool", "slice", "positions", "bool")) for _ in range(3)]
     steps = []
+    # one third of the histories start with a "sandwich": a call, a step that re-organises
+    # the key or fills a cache, and the same call again (same operation or at least the same
+    # mask object) -- the pattern history independence is about
+    if scen.weighted([(2, "free"), (1, "sandwich")]) == "sandwich":
+        import copy
+
+        b_ = scen.begin()
+        first = {"kind": "op", "op": ops.gen_op(scen, "basic" if scen.draw(4) else "composite", ds)}
+        if "mask" in first["op"] and scen.chance(3, 4):
+            j = scen.draw(len(mask_pool))
+            allowed = ("bool",) if first["op"]["op"] in ("median", "quantile", "apply") else ("bool", "slice", "positions")
+            if mask_pool[j]["kind"] in allowed:
+                first["op"]["mask"], first["op"]["mask_ref"] = mask_pool[j], j
+        scen.end(b_)
+        b_ = scen.begin()
+        want = LAYOUT_CHANGERS[scen.draw(len(LAYOUT_CHANGERS))]
+        fam2 = next(f for f, names in ops.FAMILIES.items() if want in names)
+        middle = {"kind": "op", "op": ops.gen_op(_Forced(scen, ops.FAMILIES[fam2].index(want)), fam2, ds)}
+        scen.end(b_)
+        b_ = scen.begin()
+        if scen.draw(2) == 0:
+            last = copy.deepcopy(first)
+        else:
+            last = {"kind": "op", "op": ops.gen_op(scen, "basic", ds)}
+            if "mask_ref" in first["op"] and "mask" in last["op"]:
+                last["op"]["mask"], last["op"]["mask_ref"] = first["op"]["mask"], first["op"]["mask_ref"]
+        scen.end(b_)
+        steps = [first, middle, last]
     while len(steps) < max_steps:
         b_ = scen.begin()
         if not scen.forced(1 if len(steps) < nsteps else 0):  # "one more step?"
             break
-        steps.append(gen_step(scen, ds, tier, early=len(steps) < 2))
+        step = gen_step(scen, ds, tier, early=len(steps) < 2)
+        # positional masks are where the key representation matters most: make them frequent
+        op0 = step.get("op")
+        if op0 is not None and step["kind"] == "op" and op0["op"] in ops.BASIC and "mask" in op0 and scen.chance(1, 5):
+            op0["mask"] = gen.gen_mask(scen, ds, ("positions",))
+        # the client owns a small pool of mask objects and reuses them across calls
+        op_ = step.get("op")
+        if op_ is not None and "mask" in op_ and step["kind"] != "failing_call" and scen.chance(1, 2):
+            j = scen.draw(len(mask_pool))
+            allowed = ("none", "bool") if op_["op"] not in ops.BASIC + ["var", "std", "agg"] else ("none", "bool", "slice", "positions")
+            if mask_pool[j]["kind"] in allowed:
+                op_["mask"] = mask_pool[j]
+                op_["mask_ref"] = j
+        steps.append(step)
         scen.end(b_)
     if not steps:
         steps = [gen_step(Choices(replay=[]), ds, tier)]
@@ -249,6 +303,8 @@ def execute(sc, sched: Choices, cls, cfg):
         for k_, v_ in ctx.stats.items():
             if v_:
                 probes.add(k_)
+
+    client = {}  # the client's own mask / value objects, reused across the history
 
     def construct():
         keys = gen.build_keys(ds, lay)
@@ -322,9 +378,9 @@ def execute(sc, sched: Choices, cls, cfg):
         ctxm = new_ctx()
         with executor.use_context(ctxm):
             if kind == "class_form":
-                model = _outcome(lambda: _step_call(GroupBy(gen.build_keys(ds, lay)), dict(step, kind="op"), ds, lay))
+                model = _outcome(lambda: _step_call(GroupBy(gen.build_keys(ds, lay)), dict(step, kind="op"), ds, lay, client=client))
             else:
-                model = _outcome(lambda: _step_call(construct(), step, ds, lay))
+                model = _outcome(lambda: _step_call(construct(), step, ds, lay, client=client))
         account(ctxm)
         # ---- reused object ----
         this_fault = fault if (fault is not None and fault_step == si) else None
@@ -332,9 +388,9 @@ def execute(sc, sched: Choices, cls, cfg):
         layout_before = _layout_of(reused)
         with executor.use_context(ctxr):
             if kind == "class_form":
-                got = _outcome(lambda: _step_call(None, step, ds, lay, class_keys=gen.build_keys(ds, lay)))
+                got = _outcome(lambda: _step_call(None, step, ds, lay, class_keys=gen.build_keys(ds, lay), client=client))
             else:
-                got = _outcome(lambda: _step_call(reused, step, ds, lay))
+                got = _outcome(lambda: _step_call(reused, step, ds, lay, client=client))
         account(ctxr)
         fired = ctxr.fault_fired
         if fired:
